@@ -78,7 +78,14 @@ pub fn parse_patch_date(date_str: &str) -> Result<(i64, i64), ParsePatchDateErro
         ));
     }
 
-    let offset = offset_hours * 3600 + offset_minutes * 60;
+    // The sign belongs to the whole offset, not just to the hours:
+    // "-0330" is -(3h30m), and "-0030" is negative although its hours are 0.
+    let sign = if m.get(2).unwrap().as_str().starts_with('-') {
+        -1
+    } else {
+        1
+    };
+    let offset = sign * (offset_hours.abs() * 3600 + offset_minutes * 60);
     // Parse secs_str with a time format %Y-%m-%d %H:%M:%S using the chrono crate
     let dt = chrono::NaiveDateTime::parse_from_str(secs_str, "%Y-%m-%d %H:%M:%S")
         .map_err(|_| ParsePatchDateError::InvalidDate(date_str.to_string()))?
@@ -94,6 +101,18 @@ mod test {
         assert_eq!(
             super::parse_patch_date("2019-01-01 00:00:00 +0000").unwrap(),
             (1546300800, 0)
+        );
+        assert_eq!(
+            super::parse_patch_date("2019-01-01 00:00:00 -0330").unwrap(),
+            (1546313400, -12600)
+        );
+        assert_eq!(
+            super::parse_patch_date("2019-01-01 00:00:00 -0030").unwrap(),
+            (1546302600, -1800)
+        );
+        assert_eq!(
+            super::parse_patch_date("2019-01-01 00:00:00 +0545").unwrap(),
+            (1546280100, 20700)
         );
         match super::parse_patch_date("2019-01-01 00:00:00") {
             Err(super::ParsePatchDateError::MissingTimezoneOffset(_)) => (),
